@@ -27,6 +27,9 @@ type serTracer struct {
 	root  *ssa.Function
 	notes []string
 	flow  *an.Flow
+	// byParam: name operands after the root's parameter (for serializers that take the fields as
+	// separate arguments) instead of after the receiver's field
+	byParam bool
 }
 
 // fieldsOf attributes an appended operand to receiver fields.
@@ -36,10 +39,16 @@ func (st *serTracer) fieldsOf(ctx []ssa.CallInstruction, v ssa.Value) []string {
 	content := map[string]bool{}
 	lens := map[string]bool{}
 	for _, l := range leaves {
-		if l.Kind != an.LParam || l.Param != 0 {
+		if l.Kind != an.LParam || (l.Param != 0 && !st.byParam) {
 			continue
 		}
 		parts := strings.Split(strings.TrimPrefix(l.Path, "."), ".")
+		if st.byParam {
+			if l.Param >= len(st.root.Params) {
+				continue
+			}
+			parts = []string{st.root.Params[l.Param].Name()}
+		}
 		if parts[0] == "" {
 			continue
 		}
@@ -276,7 +285,11 @@ func mergeToks(a, b []serTok) []serTok {
 
 // serFieldOrder: the order of first appearance of each (content) field in the serializer output.
 func serFieldOrder(p *an.Prog, ser *ssa.Function) ([]string, string) {
-	st := &serTracer{p: p, root: ser, flow: an.NewFlow(p)}
+	return serOrder(p, ser, false)
+}
+
+func serOrder(p *an.Prog, ser *ssa.Function, byParam bool) ([]string, string) {
+	st := &serTracer{p: p, root: ser, flow: an.NewFlow(p), byParam: byParam}
 	var best []serTok
 	for _, ret := range st.flow.OkReturns(ser) {
 		toks := st.bufOrder(nil, ser, ret.Results[0], map[ssa.Value]bool{}, 0)
